@@ -176,6 +176,18 @@ def solve_one(job):
     budget = job['budget_ms']
     attempts = []
     res = None
+    useq_sat = None
+    if job.get('fast'):
+        # feasibility probe: only a quick `unsat` matters
+        if job.get('z3_text'):
+            r = run_z3(job['z3_text'], [], budget)
+            if r['answer'] == 'sat' and _weak(job):
+                r['answer'] = 'unknown'
+            r['attempts'] = []
+            return r
+        r = run_cvc5(job['cvc5_text'], [], budget, want_model=False)
+        r['attempts'] = []
+        return r
     if job.get('z3_text'):
         res = run_z3(job['z3_text'], outputs, budget)
         attempts.append({k: res.get(k) for k in ('backend', 'answer', 'time', 'detail')})
@@ -193,6 +205,8 @@ def solve_one(job):
             if r2['answer'] == 'unsat':
                 r2['attempts'] = attempts
                 return r2
+            if r2['answer'] == 'sat':
+                useq_sat = r2
     res2 = run_cvc5(job['cvc5_text'], outputs, budget)
     attempts.append({k: res2.get(k) for k in ('backend', 'answer', 'time', 'detail')})
     if res2['answer'] not in ('sat', 'unsat') and job.get('z3_text') and os.path.exists(OLD_Z3) \
@@ -206,6 +220,12 @@ def solve_one(job):
     if res2['answer'] == 'error' and res is not None and res['answer'] != 'error':
         res['attempts'] = attempts
         return res
+    if res2['answer'] not in ('sat', 'unsat') and useq_sat is not None:
+        # no exact back end decided; the obligation is refuted in the sequence abstraction
+        # (sequences as an uninterpreted sort with nth/len): reported as a refutation without input
+        return {'answer': 'sat', 'backend': useq_sat['backend'], 'time': useq_sat.get('time'),
+                'detail': 'refuted in the sequence abstraction only (no concrete model)', 'attempts': attempts,
+                'abstract_model': True}
     return res2
 
 
